@@ -242,9 +242,17 @@ pub enum VHasher {
     Identity,
     Zero,
     Fnv,
+    /// identity hash xor a global salt that the history changes between calls (op 96): the hash of a stored key
+    /// changes while it is stored, as with a key whose `Hash` reads interior state.  Safe code, so C03 covers it.
+    Liar,
 }
+/// the salt of `VHasher::Liar`
+pub static SALT: std::sync::atomic::AtomicU64 = std::sync::atomic::AtomicU64::new(0);
 impl VHasher {
     pub fn from_mode(m: u64) -> Self {
+        if m == 5 {
+            return VHasher::Liar;
+        }
         match m % 5 {
             0 | 1 if DROP_IS_USER_CALL.load(std::sync::atomic::Ordering::Relaxed) => VHasher::Sip0,
             0 | 1 => VHasher::Sip(std::collections::hash_map::RandomState::new()),
@@ -259,6 +267,7 @@ pub enum VH {
     Identity(u64),
     Zero,
     Fnv(u64),
+    Liar(u64),
 }
 impl BuildHasher for VHasher {
     type Hasher = VH;
@@ -270,6 +279,7 @@ impl BuildHasher for VHasher {
             VHasher::Identity => VH::Identity(0),
             VHasher::Zero => VH::Zero,
             VHasher::Fnv => VH::Fnv(0xcbf2_9ce4_8422_2325),
+            VHasher::Liar => VH::Liar(0),
         }
     }
 }
@@ -280,6 +290,7 @@ impl Hasher for VH {
             VH::Identity(x) => *x,
             VH::Zero => 0,
             VH::Fnv(x) => *x,
+            VH::Liar(x) => *x ^ SALT.load(std::sync::atomic::Ordering::Relaxed),
         }
     }
     fn write(&mut self, bytes: &[u8]) {
@@ -291,6 +302,11 @@ impl Hasher for VH {
                 }
             }
             VH::Zero => {}
+            VH::Liar(x) => {
+                for b in bytes {
+                    *x = (*x << 8) | (*b as u64);
+                }
+            }
             VH::Fnv(x) => {
                 for b in bytes {
                     *x ^= *b as u64;
